@@ -28,7 +28,36 @@ def handlers(db):
             p = parent.get(n["id"])
             if p is not None and p["k"] == "UnaryOperator" and p.get("op") == "&":
                 out.append((n["fn"], facts.loc(d, n)))
+    # ... or inside a constant table the dispatcher looks the callback up in
+    for gl, rows in handler_tables(db, d):
+        for v, fns in rows:
+            for fn_ in fns:
+                out.append((fn_, "%s:%s" % (gl.get("file"), gl.get("line"))))
     return f, out
+
+
+def handler_tables(db, d):
+    """[(global, [(link type value, [function ids])])] for the constant file-scope arrays of {integer, &function} rows that
+    dispatcher d reads"""
+    out = []
+    seen = set()
+    for n in facts.fn_nodes(d):
+        if n["k"] == "DeclRefExpr" and n.get("glob") and n.get("var") not in seen:
+            seen.add(n["var"])
+            gl = db.globals.get(n["var"])
+            if gl is None or not gl.get("const") or not gl.get("init") or gl["init"]["k"] != "InitListExpr":
+                continue
+            rows = []
+            for r in gl["init"].get("c", []):
+                if r is None or r["k"] != "InitListExpr":
+                    continue
+                vals = [facts.cval(x) for x in r.get("c", []) if x is not None and facts.cval(x) is not None]
+                fns = [x["fn"] for x in facts.walk(r) if x["k"] == "DeclRefExpr" and x.get("fn")]
+                if len(vals) == 1 and fns:
+                    rows.append((int(vals[0]), fns))
+            if rows:
+                out.append((gl, rows))
+    return out
 
 
 def dispatcher(db, f):
@@ -37,7 +66,8 @@ def dispatcher(db, f):
     def n_addr(fn_):
         idx, parent = facts.index_fn(fn_)
         return sum(1 for n in facts.fn_nodes(fn_) if n["k"] == "DeclRefExpr" and n.get("fn") and
-                   (parent.get(n["id"]) or {}).get("k") == "UnaryOperator" and parent[n["id"]].get("op") == "&")
+                   (parent.get(n["id"]) or {}).get("k") == "UnaryOperator" and parent[n["id"]].get("op") == "&") + \
+            sum(len(rows) for _, rows in handler_tables(db, fn_))
     if n_addr(f) > 0:
         return f
     best = f
@@ -123,10 +153,29 @@ def link_types(db, rep, f):
     """writer table DataLinkType<T>::type  vs  the reader's switch over pcap_datalink()"""
     from vlib import table as tbl
     sws = [n for n in facts.fn_nodes(f) if n["k"] == "SwitchStmt"]
-    if not sws:
+    tabs = handler_tables(db, f)
+    if not sws and not tabs:
         rep.analysis_broken("next_packet: switch over the link type not found")
         return
     arms = {}
+    for gl, rows in tabs:
+        # a table of {link type, callback} rows searched for the row whose link type equals pcap_datalink(): the row tested
+        # and the row the callback is taken from are the same one (same index expression everywhere the table is subscripted)
+        unevaluated = set(id(y) for x in facts.fn_nodes(f) if x["k"] == "UnaryExprOrTypeTraitExpr" for y in facts.walk(x))
+        subs = [x for x in facts.fn_nodes(f) if x["k"] == "ArraySubscriptExpr" and id(x) not in unevaluated and
+                any(y["k"] == "DeclRefExpr" and y.get("var") == gl["id"] for y in facts.walk(x["c"][0]))]
+        idxs = set(facts.expr_str(x["c"][1]) for x in subs)
+        tested = [x for x in facts.fn_nodes(f) if x["k"] == "BinaryOperator" and x.get("op") == "==" and
+                  any(y in subs for y in facts.walk(x))]
+        if len(idxs) != 1 or not tested or not all(facts.strip_all(x["c"][1])["k"] == "DeclRefExpr" for x in subs):
+            rep.violation("R2-link-types", "table:%s" % gl["name"], "%s:%s" % (gl.get("file"), gl.get("line")),
+                          "the callback table is subscripted with %s and tested %d time(s) with ==: the row whose link type is compared "
+                          "must be the row the callback is taken from" % (sorted(idxs), len(tested)))
+            return
+        for v, fns in rows:
+            arms.setdefault(int(v), set()).update(fns)
+    if not sws:
+        sws = [{"k": "SwitchStmt", "c": [{"k": "CompoundStmt", "c": []}]}]
 
     def visit(lbl, vals):
         inner = lbl
@@ -607,6 +656,8 @@ def iterator_protocol(db, rep):
         for op, l, r in cond.guards_facts(g, g.pos(clear[0])):
             if op == "false" and "pkt_" in facts.expr_str(l):
                 okc = True
+            if op == "==" and r is not None and "pkt_" in facts.expr_str(l) and facts.cval(r) == 0:
+                okc = True      # `pkt_.pdu() == 0`, the same test spelled out
     verdict("advance", adv, bool(fetch) and okc and g.reaches_exit_avoiding((g.entry, -1), [g.pos(fetch[0])], normal_only=True) is None,
             "pkt_ = next_packet() on every path; sniffer_ cleared exactly when no packet came",
             "advance() does not (always) fetch the next packet, or does not turn into the end iterator when there is none: range "
@@ -617,6 +668,11 @@ def iterator_protocol(db, rep):
             continue
         gg = cfg.FnCFG(f)
         c = calls(f, "advance")
+        if not c and nm == "operator++/1" and ms.get("operator++/0") is not None:
+            # post-increment through the pre-increment of this very object (`++*this`), which is judged above
+            c = [x for x in facts.fn_nodes(f) if x["k"] == "CXXOperatorCallExpr" and x.get("op") == "++" and
+                 x.get("callee") == ms["operator++/0"]["id"] and
+                 any(y["k"] == "CXXThisExpr" for y in facts.walk(x["c"][1]))]
         verdict(nm, f, bool(c) and gg.reaches_exit_avoiding((gg.entry, -1), [gg.pos(c[0])], normal_only=True) is None,
                 "%s advances" % what, "%s does not call advance(): the loop never moves to the next packet" % what)
     for nm, f in ms.items():
@@ -626,7 +682,8 @@ def iterator_protocol(db, rep):
             okk = False
             if c:
                 gf = cond.guards_facts(gg, gg.pos(c[0]))
-                okk = all(op == "true" and "sniffer_" in facts.expr_str(l) for op, l, r in gf) and len(gf) >= 1
+                okk = all((op == "true" and "sniffer_" in facts.expr_str(l)) or
+                          (op == "!=" and r is not None and "sniffer_" in facts.expr_str(l) and facts.cval(r) == 0) for op, l, r in gf) and len(gf) >= 1
             verdict("ctor", f, okk, "fetches the first packet when given a sniffer",
                     "begin() does not fetch the first packet (or tries to without a sniffer)")
     eq = ms.get("operator==/1")
